@@ -84,6 +84,13 @@ def run(ctx):
                      "every library call runs under a 3 s deadline in the harness (`hang`), panics become `panic`, a fatal "
                      "stack overflow ends the process within milliseconds (reduced maximal stack)"]
     ctx.lean(props=["Props.C20"], drivers=["drv_c20"])
+    # Loop-level translator tie (added in the extension session): txt.NaturalCmp / NaturalLess regenerated from the typed SSA of the working tree (six loops and the recursive call as fuel recursions) and proved EQUAL to Model/NatSortGo.goCmp and NatSort.naturalCmp (Props/C20Gen.lean).
+    # ADVISORY: it is run, audited and recorded on every run (coverage.txt_advisory; on the unchanged tree it shows that
+    # the model functions ARE the code), but a broken tie alone raises no alarm - a structural tie of a function with
+    # loops also breaks under a behaviour-preserving restructuring of those loops (all four C20 controls and three of
+    # the C08 controls do that); the correspondence streams below decide.
+    from vlib import gentie
+    gentie.run(ctx, target="txt", generated="SSA_Txt.lean", module="Props.C20Gen", key="txt", namespace="C20Gen", advisory=True)
     ctx.harness("./cmd/c20")
     ctx.diff(area="natsort", driver="drv_c20", n={"quick": 150000, "thorough": 6000000},
              trivial=lambda l, o: False, tagger=region,
